@@ -3,6 +3,46 @@
 Q, T = "quick", "thorough"
 
 PROPS = {
+    "C01": dict(
+        bins={"main": dict(tc="gcc", src="prop_C01.cpp", variants=["plain", "hp"], shims=["hp"])},
+        parts=[dict(name="gp", workers={Q: 16, T: 16}, cases={Q: 1500, T: 30000})],
+        rule=("cases = closed subject/clip path sets (random 3-10 vertex paths, nested rings, star polygons {n/k}, doubly "
+              "traversed rings, convex pairs, many-short-edge walks; base range 2^10..2^20, optionally scaled by 2^k and "
+              "translated up to 2^40 / 2^61 with low-bit jitter) that pass the exact general-position predicate (every "
+              "vertex and crossing >= 3 units from every other edge); each case is executed under 4 clip types x 4 fill "
+              "rules x PreserveCollinear x ReverseSolution on BOTH the default and the CLIPPER2_HI_PRECISION library and "
+              "judged at one integer sample point per face of the input edge arrangement (samples closer than tau = 2 + "
+              "max|coord|*2^-42 to an input edge are skipped) by exact __int128 winding numbers: solution winding must be "
+              "+1/-1 where the operation selects the point, 0 elsewhere. Non-trivial = at least one proper edge crossing "
+              "and both a filled and an empty sample; distinct = distinct hash of the case encoding"),
+        assumptions=["oracle: exact integer winding numbers + face sampling; faces narrower than the tolerance band are not judged",
+                     "|coordinates| <= 2^61"],
+        technique="property-based testing (rapidcheck) against an exact winding-number reference model, two build variants in one binary",
+        level_text=("Generated search over general-position inputs x all 64 configurations x both precision builds, judged "
+                    "by an independent exact winding oracle at one sample per arrangement face. Exploration only."),
+        level_note="trusts the __int128 winding/sampling oracle (oracle.hpp), g++, rapidcheck",
+    ),
+    "C03": dict(
+        bins={"main": dict(tc="gcc", src="prop_C03.cpp", variants=["plain"])},
+        parts=[
+            dict(name="deg", workers={Q: 5, T: 5}, cases={Q: 20000, T: 400000}),
+            dict(name="gp", workers={Q: 7, T: 7}, cases={Q: 5000, T: 100000}),
+            dict(name="rect", workers={Q: 4, T: 4}, cases={Q: 8000, T: 160000}),
+        ],
+        rule=("three generators: (deg) arbitrary degenerate subject/clip/open path sets in magnitude classes 8..2^62 - "
+              "structural clauses only (>=3 vertices, no equal consecutive vertices, vertices inside the input bounding box "
+              "for |coord|<=2^52); (gp) general-position sets and (rect) rectilinear walks on any lattice - additionally exact "
+              "checks of non-zero area, no 180-degree spike, no properly crossing solution edges, orientation parity by "
+              "nesting depth (exact winding at doubled edge midpoints), no collinear triple with PreserveCollinear off, "
+              "every vertex within tolerance of an input edge, and Union idempotence. Every case runs 4 clip types x 4 fill "
+              "rules x PreserveCollinear x ReverseSolution. Non-trivial = some solution has >=2 paths or a path with >=6 vertices"),
+        assumptions=["geometric clauses judged for |coord| <= 2^59 (doubled coordinates must fit the __int128 predicates)",
+                     "idempotence differences that vanish after splitting paths at vertices they visit twice are the listed class KF-C03-a"],
+        technique="property-based testing (rapidcheck): exact structural and geometric validity predicates over the solution + Union round-trip",
+        level_text=("Generated search over degenerate, general-position and rectilinear inputs x 64 configurations with exact "
+                    "validity predicates on every solution and a Union round trip. Exploration only."),
+        level_note="trusts the __int128 predicates in oracle.hpp/prop_C03.cpp, g++, rapidcheck",
+    ),
     "C02": dict(
         bins={"main": dict(tc="gcc", src="prop_C02.cpp", variants=["plain"])},
         parts=[
